@@ -47,6 +47,8 @@ ASSUMPTIONS = ['computechi2: "full rank" is decided exactly (rational arithmetic
                'HMF: data have no all-zero columns (documented limitation) and every row/column keeps more good pixels than K; for epsilon > 0 '
                '"optimum given the other factor" is read as the per-pixel optimum with the neighbouring pixels held at their previous values',
                'HMF non-negative mode: only sign, normalisation and reproducibility are required of the multiplicative updates',
+               'pca_solve: pixels masked in every spectrum (first/last/interior, one or two) are in the menu: they carry zero weight in the '
+               'projection oracle and must be counted 0 in the use-mask',
                'pca_solve: nreturn = nkeep, no spectrum is entirely masked or constant; projections are compared at (1e-6 + 2e-8*cond) relative because the '
                'returned eigenspectra are float32; cond > 1e5 skipped']
 
@@ -412,6 +414,11 @@ def mask_menu(name, kind):
         return [[[0, 2], [1, 2]], [[N - 1, M - 1], [N - 2, M - 1]], [[0, 0], [N - 1, 0], [2, 3], [2, 4]]]
     if kind == 'single':
         return [[[i, j]] for i in range(N) for j in range(M)]
+    if kind == 'columns':      # pixels with zero weight in EVERY spectrum (pca_solve only; HMF documents them as unsupported)
+        colsets = [[0], [M - 1], [M // 2], [0, M - 1], [2, M // 2 + 1], [0, 1], [M // 2, M - 1]]
+        out = [[[i, j] for j in cs for i in range(N)] for cs in colsets]
+        out.append([[i, M // 2] for i in range(N)] + [[1, 1], [N - 1, M - 2]])      # a dead pixel plus scattered masked pixels
+        return out
     raise KeyError(kind)
 
 
@@ -802,10 +809,12 @@ def check_pca(case):
     S0, W0 = hmf_data(case['data'], False, case['mask'])
     S, W = S0.copy(), W0.copy()
     nkeep = case['nkeep']
+    ndead = int(((W0 != 0).sum(axis=0) == 0).sum())
+    dead = ':pixel-masked-in-all-spectra' if ndead else ''
     try:
         out = pca_solve(S, W, maxiter=case['maxiter'], niter=case['niter'], nkeep=nkeep)
     except Exception as e:
-        return [('pca_solve:exception:%s' % type(e).__name__, repr(e))], 'exc'
+        return [('pca_solve:exception:%s%s' % (type(e).__name__, dead), repr(e))], 'exc'
     bad = []
     N, M = S0.shape
     E = np.asarray(out['flux'], dtype=float)
@@ -815,7 +824,7 @@ def check_pca(case):
     if E.shape != (nkeep, M) or ac.shape != (N, nkeep):
         return [('pca_solve:shape', 'flux %s acoeff %s' % (E.shape, ac.shape))], 'shape'
     if not np.all(np.isfinite(E)) or not np.all(np.isfinite(ac)):
-        return [('pca_solve:non-finite', '')], 'nonfinite'
+        return [('pca_solve:non-finite' + dead, 'nan/inf in the returned eigenspectra or coefficients')], 'nonfinite'
     worst = 0.0
     for i in range(N):
         sw = np.sqrt(W0[i])
@@ -829,12 +838,15 @@ def check_pca(case):
         if not np.all(np.abs(ac[i] - x) <= (1e-6 + 2e-8 * cond) * (1.0 + float(np.abs(x).max()))):
             bad.append(('pca_solve:acoeff-not-weighted-projection', 'spectrum %d: got %s expected %s' % (i, ac[i].tolist(), x.tolist())))
             break
-    if np.any(np.diff(ev) > 1e-12 * (1 + np.abs(ev).max())) or ev.shape != (nkeep,):
+    if ev.shape != (nkeep,) or not np.all(np.isfinite(ev)):
+        bad.append(('pca_solve:eigenvalues-non-finite' + dead, '%s' % ev.tolist()))
+    elif np.any(np.diff(ev) > 1e-12 * (1 + np.abs(ev).max())):
         bad.append(('pca_solve:eigenvalues-not-descending', '%s' % ev.tolist()))
     good = (W0 != 0).sum(axis=0)
     if um.shape != (M,) or not np.array_equal(um.astype(np.int64), good):
         bad.append(('pca_solve:usemask', 'got %s expected %s' % (um.tolist(), good.tolist())))
-    return bad, 'ok:pca:k%d:it%d:rej%d:%s' % (nkeep, case['niter'], case['maxiter'], 'masked' if case['mask'] else 'nomask')
+    return bad, 'ok:pca:k%d:it%d:rej%d:%s' % (nkeep, case['niter'], case['maxiter'],
+                                              'dead%d' % ndead if ndead else ('masked' if case['mask'] else 'nomask'))
 
 
 # ====================================================================== plumbing
@@ -1048,9 +1060,9 @@ def run_task(task):
                                         'seed': seed, 'n_iter': n_iter, 'history': hist}
                                 _do(acc, case, True)
     elif f == 'pca':
-        for mk in ('none', 'scatter', 'pairs', 'single'):
+        for mk in ('none', 'scatter', 'pairs', 'columns', 'single'):
             for mask in mask_menu(task['data'], mk):
-                for niter in ((1, 3) if not T else (1, 3, 10)):
+                for niter in ((1, 2, 3) if not T else (1, 2, 3, 10)):
                     for maxiter in (0, 1):
                         case = {'f': 'pca', 'data': task['data'], 'mask': mask, 'nkeep': task['nkeep'], 'niter': niter, 'maxiter': maxiter}
                         _do(acc, case, bool(mask) or task['nkeep'] >= 2)
